@@ -340,6 +340,13 @@ def list_case(rng) -> Dict[str, Any]:  # noqa: C901
         terms.insert(rng.randint(0, len(terms)), nt)
     if len(terms) > 6:
         terms = terms[:6]
+    if rng.random() < 0.04 and terms and len(vs) >= 2:
+        # a tiny but real coefficient (5e-7 .. 2e-6) on one more variable of a term: over |v| <= 1000 it still moves the
+        # constraint by more than the tolerance when the constant is small
+        t = rng.choice(terms)
+        free = [v for v in vs if v not in t["c"]]
+        if free:
+            t["c"][rng.choice(free)] = rng.choice([1.0, -1.0]) * rng.choice([5e-7, 8e-7, 1e-6, 2e-6])
     case = {"kind": "list", "family": fam, "style": style, "terms": terms, "ctx": ctx_}
     if rng.random() < 0.15:
         tw = print_alike_twin(rng, terms)
